@@ -36,11 +36,18 @@ fn limits(which: u8) -> (u8, u8) {
 
 fn dist_strategy() -> impl Strategy<Value = DistCase> {
     let entry = (prop_oneof![4 => Just(0u8), 2 => 1u8..=3, 1 => 1u8..=12, 1 => 3u8..=40], prop_oneof![Just(1u16), 1u16..=8, 1u16..=500], prop::bool::weighted(0.2));
-    (5u8..=9, prop::collection::vec(entry, 1..=40), 0u8..=3, 0u8..=5).prop_map(|(log, support, which, shape)| DistCase { log, support, which, shape })
+    (5u8..=9, prop::collection::vec(entry, 1..=40), 0u8..=3, 0u8..=7).prop_map(|(log, support, which, shape)| DistCase { log, support, which, shape })
 }
 
 /// build a valid NCount from the case (constructive: always valid)
 fn build_ncount(c: &DistCase) -> NCount {
+    if c.shape >= 6 && c.which % 4 < 3 {
+        // close relatives of the predefined distribution (prefix, spelled out, extended, two entries swapped)
+        let variant = c.log as u32 + 4 * c.support.len() as u32 + ((c.support[0].1 as u32) << 8);
+        if let Some(nc) = crate::model::synth::derived_from_predefined((c.which % 4) as usize, variant, &[]) {
+            return nc;
+        }
+    }
     let (max_sym, max_log) = limits(c.which);
     let log = c.log.clamp(5, max_log);
     let size = 1usize << log;
@@ -101,6 +108,28 @@ fn check_dist_nc(nc: &NCount, which: u8, ctx: &mut CaseCtx) -> CaseResult {
     let probs: Vec<i32> = nc.probs.iter().map(|&p| p as i32).collect();
     ensure!(t.symbol_probabilities == probs, "fse_probabilities", "probabilities {:?} read as {:?}", probs, t.symbol_probabilities);
     compare_tables(&t, &want, &format!("log {} probs {:?}", nc.log, nc.probs))?;
+    if which % 4 < 3 {
+        // The decoder keeps ONE table object per kind for a whole frame (and across frames): a later
+        // Predefined_Mode block builds the predefined table into the object that holds this table
+        // now, and a later description is built over the predefined one. Whatever the object held,
+        // the result has to be the table the specification defines.
+        let (plog, pprobs): (u8, &[i16]) = match which % 4 {
+            0 => (codes::LL_DEFAULT_LOG, &codes::LL_DEFAULT),
+            1 => (codes::OF_DEFAULT_LOG, &codes::OF_DEFAULT),
+            _ => (codes::ML_DEFAULT_LOG, &codes::ML_DEFAULT),
+        };
+        let pwant = fse::build_dtable(&NCount { log: plog, probs: pprobs.to_vec() });
+        let pp: Vec<i32> = pprobs.iter().map(|&p| p as i32).collect();
+        t.build_from_probabilities(plog, &pp).map_err(|e| Failure::new("predefined_table_build", format!("{e}")))?;
+        compare_tables(&t, &pwant, &format!("predefined table built into the object that held (log {}, {:?})", nc.log, nc.probs))?;
+        match t.build_decoder(&src, max_log) {
+            Ok(u) => ensure!(u == bytes.len(), "fse_description_length", "second build over the predefined table consumed {u} of {} bytes", bytes.len()),
+            Err(e) => fail!("fse_valid_description_rejected", "valid distribution rejected when built over the predefined table: {e}"),
+        }
+        compare_tables(&t, &want, &format!("(log {}, {:?}) built into the object that held the predefined table", nc.log, nc.probs))?;
+        ctx.feat("reuse:predefined_over_described_and_back");
+        ctx.feat_if(nc.probs.len() < pprobs.len() && nc.probs[..] == pprobs[..nc.probs.len()], "dist:proper_prefix_of_the_predefined_distribution");
+    }
     let n_sym = nc.probs.iter().filter(|&&p| p != 0).count();
     let has_lt1 = nc.probs.contains(&-1);
     let has_zero_run = nc.probs.windows(2).any(|w| w[0] == 0) || nc.probs.first() == Some(&0);
@@ -389,7 +418,7 @@ fn check_tables_in_frame(case: &crate::props::c16::Case, ctx: &mut CaseCtx) -> C
 }
 
 pub fn run(eng: &Engine) {
-    eng.set_rule("(decoder) valid normalized distributions built constructively for accuracy logs 5..9 (support, less-than-one symbols, zero runs crossing the 3-repeat flag, shapes: all ones / one dominant / powers of two / all less-than-one), serialised by the model writer, parsed by FSETable::build_decoder and compared state by state (symbol, bits, baseline) with the table the specification defines; all distributions over <= 4 symbols in 6 slots at log 5 exhaustively; predefined LL/ML/OF tables on both sides vs the published tables; (encoder, production parameters max log 9/8/9/6 and zero-bit avoidance on) symbol sequences over LL/OF/ML/weight alphabets through build_table_from_data: probability sum, log range, support, description written by the compressor parses back (specification and decoder) to exactly the table used, encoder state table == decoding table, single-state and interleaved streams decode to the same symbols with 0 bits left; (compressor call sites) sequence lists with code histograms flat over 6..16 codes plus one rare code for offsets / literal lengths / match lengths, compressed by the real block compressor through a scripted matcher: both decoders restore the input and the strict walker accepts every table description under the limit of ITS table (LL 9, OF 8, ML 9); non-trivial = >= 3 symbols with a less-than-one probability or a zero run (decoder) / >= 2 distinct symbols (encoder); distinct by distribution / histogram hash");
+    eng.set_rule("(decoder) valid normalized distributions built constructively for accuracy logs 5..9 (support, less-than-one symbols, zero runs crossing the 3-repeat flag, shapes: all ones / one dominant / powers of two / all less-than-one), serialised by the model writer, parsed by FSETable::build_decoder and compared state by state (symbol, bits, baseline) with the table the specification defines; then the predefined table is built into the same table object and the description over it again (the decoder keeps one object per kind), incl. close relatives of the predefined distributions (proper prefix, spelled out, extended, two entries swapped); all distributions over <= 4 symbols in 6 slots at log 5 exhaustively; predefined LL/ML/OF tables on both sides vs the published tables; (encoder, production parameters max log 9/8/9/6 and zero-bit avoidance on) symbol sequences over LL/OF/ML/weight alphabets through build_table_from_data: probability sum, log range, support, description written by the compressor parses back (specification and decoder) to exactly the table used, encoder state table == decoding table, single-state and interleaved streams decode to the same symbols with 0 bits left; (compressor call sites) sequence lists with code histograms flat over 6..16 codes plus one rare code for offsets / literal lengths / match lengths, compressed by the real block compressor through a scripted matcher: both decoders restore the input and the strict walker accepts every table description under the limit of ITS table (LL 9, OF 8, ML 9); non-trivial = >= 3 symbols with a less-than-one probability or a zero run (decoder) / >= 2 distinct symbols (encoder); distinct by distribution / histogram hash");
     selftest::code_tables(eng);
     if let Err(f) = check_predefined(eng) {
         eng.report_violation("predefined_tables", &json!(null), &f);
